@@ -266,24 +266,33 @@ theorem parseAligned_encode {t t' : ElemTy} (hv' : t'.Valid) (n : Nat) (payload 
     omega
   · simp [h, bind, Except.bind]
 
+theorem encodeAlignedRaw_drop (t : ElemTy) (n : Nat) (payload : Bytes) (base : Nat) :
+    (encodeAlignedRaw t n payload base).drop (alignedDataOffset t n base) = payload := by
+  rw [encodeAlignedRaw_eq]
+  have e : alignedMarker :: typedHeader t :: (writeSize n ++ UInt8.ofNat (alignedPad t n base) ::
+        (List.replicate (alignedPad t n base) 0 ++ payload)) =
+      (alignedMarker :: typedHeader t :: (writeSize n ++ UInt8.ofNat (alignedPad t n base) ::
+        List.replicate (alignedPad t n base) 0)) ++ payload := by simp
+  rw [e]
+  exact List.drop_left' (by simp [alignedDataOffset, writeSize_length]; omega)
+
 /-! ### element-level statements -/
 
 /-- A vector the theorems speak about: a `BeveTypedSlice` element type, blocks of the stated width,
-fewer than 2^62 payload bytes. -/
+fewer than 2^62 elements (what BEVE's SIZE can hold — sharp, see `size_62_bits_sharp`) and a payload
+that fits `usize` (true of every Rust slice: at most `isize::MAX` bytes). -/
 structure Vec (t : ElemTy) (w : Nat) (xs : List Bytes) : Prop where
   valid : t.Valid
   blocks : Blocks w xs
-  small : xs.length * w < 2^62
+  count : xs.length < 2^62
+  bytes : xs.length * w < 2^64
 
-theorem Vec.len_lt {t w xs} (v : Vec t w xs) (hw : 0 < w) : xs.length < 2^62 := by
-  have := v.small
-  have : xs.length ≤ xs.length * w := Nat.le_mul_of_pos_right _ hw
-  omega
+theorem Vec.len_lt {t w xs} (v : Vec t w xs) (_hw : 0 < w) : xs.length < 2^62 := v.count
 
 theorem readTyped_encode {t t' : ElemTy} {xs : List Bytes} (v : Vec t' t'.width xs) (rest : Bytes) :
     readTyped t (encodeTyped t' xs ++ rest) = if t = t' then .ok xs else .error .mismatch := by
   have hn := v.len_lt t'.width_pos
-  have := v.small
+  have := v.bytes
   unfold readTyped encodeTyped
   rw [readTypedRaw_encode v.valid _ _ _ hn v.blocks.flatten_length (by omega)]
   by_cases h : t = t'
@@ -296,7 +305,7 @@ theorem readTyped_encode {t t' : ElemTy} {xs : List Bytes} (v : Vec t' t'.width 
 theorem readComplex_encode {t t' : ElemTy} {xs : List Bytes} (v : Vec t' (2 * t'.width) xs) (rest : Bytes) :
     readComplex t (encodeComplex t' xs ++ rest) = if t = t' then .ok xs else .error .mismatch := by
   have hn := v.len_lt (by have := t'.width_pos; omega)
-  have := v.small
+  have := v.bytes
   unfold readComplex encodeComplex
   rw [readComplexRaw_encode v.valid _ _ _ hn v.blocks.flatten_length (by omega)]
   by_cases h : t = t'
@@ -310,7 +319,7 @@ theorem parseAligned_encode' {t t' : ElemTy} {xs : List Bytes} (v : Vec t' t'.wi
     parseAligned t (encodeAligned t' xs base ++ rest) =
       if t = t' then .ok ⟨xs.length, alignedDataOffset t' xs.length base, xs.flatten⟩ else .error .mismatch := by
   have hn := v.len_lt t'.width_pos
-  have := v.small
+  have := v.bytes
   exact parseAligned_encode v.valid _ _ _ _ hn v.blocks.flatten_length (by omega)
 
 theorem readAligned_encode {t t' : ElemTy} {xs : List Bytes} (v : Vec t' t'.width xs) (base : Nat) (rest : Bytes) :
